@@ -607,10 +607,12 @@ def run_job(job, disable_a2=False):
         try:
             with instrumented(rec, disable_a2) as qu:
                 circ = qu.unitary(u.copy(), dec, iso, a2)
-        except Exception as e:  # noqa: BLE001  qclib raised on a valid input
+        except BaseException as e:  # noqa: BLE001  qclib raised on a valid input (qiskit's Rust kernels panic with a BaseException)
+            if isinstance(e, (KeyboardInterrupt, SystemExit, MemoryError)):
+                raise
             import traceback
-            res["raised"] = f"{type(e).__name__}: {e}"
-            res["tb"] = traceback.format_exc()[-800:]
+            res["raised"] = f"{type(e).__name__}: {str(e)[:300]}"
+            res["tb"] = traceback.format_exc()[-1500:]
             return res
         measure_plain(res, circ, rec, u, n, dec, iso)
         return res
@@ -627,7 +629,14 @@ def job_weight(job):
 
 def run_any(job):
     """pool entry: structured-sweep tuples go to run_job, input-diversity specs (dicts) to div_eval."""
-    return div_eval(job) if isinstance(job, dict) else run_job(job)
+    try:
+        return div_eval(job) if isinstance(job, dict) else run_job(job)
+    except BaseException as e:  # noqa: BLE001  a Rust panic (pyo3 PanicException) cannot be pickled back to the parent
+        if isinstance(e, (KeyboardInterrupt, SystemExit, MemoryError)):
+            raise
+        import traceback
+        return {"harness_exc": f"{type(e).__name__} escaped the worker: " + traceback.format_exc()[-2500:],
+                "job": job if isinstance(job, dict) else list(job)}
 
 
 def run_jobs(jobs):
@@ -1361,19 +1370,23 @@ def div_eval(s, disable_a2=False):
                         circ_again = div_call(qu, obj, dec, iso_f, a2_f, s.get("call", "pos")) if s.get("use") == "twice" else None
                     finally:
                         qu.build_unitary = orig
-        except Exception as e:  # noqa: BLE001  qclib raised
+        except BaseException as e:  # noqa: BLE001  qclib raised (qiskit's Rust kernels panic with a BaseException)
+            if isinstance(e, (KeyboardInterrupt, SystemExit, MemoryError)):
+                raise
             import traceback
-            res["raised"] = f"{type(e).__name__}: {e}"
+            res["raised"] = f"{type(e).__name__}: {str(e)[:400]}"
             res["exc_type"] = type(e).__name__
             res["tb"] = traceback.format_exc()[-800:]
             return res
         res["mutated"] = div_fingerprint(obj) != before
         try:
             measure_plain(res, circ, rec1, val, n, dec, iso)
-        except Exception as e:  # noqa: BLE001  a lazily built definition (qiskit UCGate / UnitaryGate) raised under Operator()
+        except BaseException as e:  # noqa: BLE001  a lazily built definition (qiskit UCGate / UnitaryGate) raised under Operator()
+            if isinstance(e, (KeyboardInterrupt, SystemExit, MemoryError)):
+                raise
             import traceback
             tb = traceback.format_exc()
-            res["op_raised"] = f"{type(e).__name__}: {e}"
+            res["op_raised"] = f"{type(e).__name__}: {str(e)[:400]}"
             res["op_exc_type"] = type(e).__name__
             res["op_in_uc"] = "generalized_gates/uc.py" in tb
             res["tb"] = tb[-800:]
@@ -1443,7 +1456,8 @@ def div_judge(ctx, s, res):
     reduced = s["etype"] in DIV_REDUCED and not res.get("exact", True)
     ctx.count(f"diversity:oracle:{dec}")
     if "raised" in res:
-        if reduced and res["exc_type"] in ("ValueError", "QiskitError") and "unitary" in res["raised"]:
+        if reduced and res["exc_type"] in ("ValueError", "QiskitError", "PanicException") \
+                and ("unitary" in res["raised"] or "failed to diagonalize" in res["raised"]):
             # the rejection unitary() documents ("The matrix must be unitary.") or the same verdict of a qiskit constructor on an
             # intermediate factor computed in single precision ("Input matrix is not unitary." / "A controlled gate is not unitary.")
             ctx.count(f"diversity:reduced-precision:{s['etype']}:{dec}:rejected-{res['exc_type']}")
@@ -1454,7 +1468,10 @@ def div_judge(ctx, s, res):
                  dict(rep, traceback=res.get("tb")))
         return
     if "op_raised" in res:
-        if reduced and res["op_exc_type"] in ("ValueError", "QiskitError") and "unitary" in res["op_raised"]:
+        if reduced and res["op_exc_type"] in ("ValueError", "QiskitError", "PanicException") \
+                and ("unitary" in res["op_raised"] or "failed to diagonalize" in res["op_raised"]):
+            # (an inexact single-precision matrix that slips through unitary()'s own tolerance: a qiskit factor re-validates or
+            # its Weyl decomposition gives up when the definition is expanded - still a rejection of a not-quite-unitary input)
             ctx.count(f"diversity:reduced-precision:{s['etype']}:{dec}:rejected-at-definition-{res['op_exc_type']}")
             ctx.ok(key + ":rejected", nontrivial=False)
         elif dec == "csd" and res["op_in_uc"] and res["blocks_err"] <= 1e-12:
